@@ -107,6 +107,7 @@ type ScenarioStats struct {
 	Complete   bool `json:"complete"`
 	Quiescent  int  `json:"quiescent"`
 	Overrun    int  `json:"overrun"`
+	Rounds     int  `json:"extra_rounds"` // further complete or partial sweeps of an enumerated catalogue under other seeds
 }
 
 type FoundViolation struct {
@@ -303,7 +304,9 @@ func runMode(t *testing.T, property string, scenarios []*Scenario) {
 		g.emit = func(c Case) bool {
 			i := idx
 			idx++
-			st.Emitted++
+			if st.Rounds == 0 {
+				st.Emitted++
+			}
 			if i%nshards != shard {
 				return true
 			}
@@ -379,6 +382,18 @@ func runMode(t *testing.T, property string, scenarios []*Scenario) {
 		}
 		sc.Gen(g)
 		st.Complete = !stopped
+		st.Emitted = idx
+		// An enumerated catalogue that finished early is swept again under further
+		// seeds (other transport schedules, keys, payloads) while budget remains.
+		for st.Complete && sc.Enumerated && maxCases == 0 && time.Now().Before(until) && st.Rounds < 1000 {
+			st.Rounds++
+			idx = 0
+			g.Seed = seed + uint64(st.Rounds)*7_777_777
+			sc.Gen(g)
+			if stopped {
+				break
+			}
+		}
 	}
 	enumUntil := start.Add(budget * 3 / 4)
 	if len(random) == 0 {
